@@ -497,7 +497,7 @@ static RunOutcome execute_run(const Plan& pl, const Refs& refs) {
   pid_t pid = fork();
   if (pid < 0) { ro.cls = C_MACHINERY; ro.detail = "\"why\":\"fork failed\""; return ro; }
   if (pid == 0) child_run(pl, refs.total_events);
-  ro.cs = wait_child(pid, 120.0);
+  ro.cs = wait_child(pid, 40.0);
   const sim::Result& res = g_shm->res;
   char b[512];
   std::string d;
@@ -796,6 +796,8 @@ static void gen_sched(uint64_t seed, uint64_t widx, uint64_t sidx, const Plan& p
   } else if (u < 0.35) {
     sc.strategy = sim::S_WALK;
     sc.p = walk_p[r.below(6)];
+    // bound the cost of a run: at most ~2*10^5 context switches (a hand-off costs microseconds)
+    if (refs.total_events > 0 && sc.p * (double)refs.total_events > 2e5) sc.p = 2e5 / (double)refs.total_events;
   } else if (u < 0.60) {
     sc.strategy = sim::S_PCT;
     sc.depth = pct_d[r.below(4)];
